@@ -588,6 +588,48 @@ theorem cached_never_faults (o : CacheOps σ) (wf : σ → Prop) (ct : Contract 
     rw [h] at this
     cases this
 
+/-- **FIFO refines the flat-file specification** (composition of `fifo_repaired_transparent` with the simulation above):
+whatever the reader with FIFO caches returns is what `Hts.Spec.Flat` prescribes for the history without the cache calls -/
+theorem fifo_refines_flat (cfg : Cfg) (hcfg : cfg.failReset = true) (hlg : cfg.lentGuard = true)
+    (F : Hts.Model.Bgzf.File) (hwf : Hts.Model.Bgzf.WF F)
+    (r0 : Hts.Model.Bgzf.Reader) (h0 : Hts.Model.Bgzf.Reader.new F = .ok r0) (ops : List (Op LCache))
+    (ok : ∀ op ∈ ops, OpOK fifoOps LCache.WF op) (hseek : ∀ f b, Op.seek f b ∈ ops → 0 ≤ f)
+    (hv : Hts.Spec.Flat.ValidOps (Hts.Model.Bgzf.layoutOf F) (ops.filterMap flatOp)) (outs : List Out)
+    (hr : outputs cfg fifoOps (ofB F) ops = .ok outs) :
+    outs = flatOuts (Hts.Model.Bgzf.flatOf F) Hts.Spec.Flat.init ops := by
+  have hu := fifo_repaired_transparent cfg (Or.inr hcfg) hlg (ofB F) (fileOK_ofB hwf 0) ops ok outs hr
+  have hp : ∀ op ∈ ops.map Op.uncached, Plain op := by
+    intro op hop
+    obtain ⟨op0, h1, h2⟩ := List.mem_map.1 hop
+    subst h2
+    exact plain_uncached op0 (fun f b e => hseek f b (e ▸ h1))
+  have hv' : Hts.Spec.Flat.ValidOps (Hts.Model.Bgzf.layoutOf F) ((ops.map Op.uncached).filterMap flatOp) := by
+    rw [filterMap_flatOp_uncached]; exact hv
+  have := uncached_baseline_refines_flat cfg hcfg fifoOps F hwf r0 h0 (ops.map Op.uncached) hp hv'
+  rw [hu, flatOuts_uncached] at this
+  exact (Except.ok.inj this)
+
+/-- … and it does not panic or hang on valid histories (only the model artefact `badHint` is not excluded here; FIFO's
+`Put` never produces it) -/
+theorem fifo_never_faults (cfg : Cfg) (hcfg : cfg.failReset = true) (hlg : cfg.lentGuard = true)
+    (F : Hts.Model.Bgzf.File) (hwf : Hts.Model.Bgzf.WF F)
+    (r0 : Hts.Model.Bgzf.Reader) (h0 : Hts.Model.Bgzf.Reader.new F = .ok r0) (ops : List (Op LCache))
+    (ok : ∀ op ∈ ops, OpOK fifoOps LCache.WF op) (hseek : ∀ f b, Op.seek f b ∈ ops → 0 ≤ f)
+    (hv : Hts.Spec.Flat.ValidOps (Hts.Model.Bgzf.layoutOf F) (ops.filterMap flatOp)) (e : Fault)
+    (hr : outputs cfg fifoOps (ofB F) ops = .error e) : e = .badHint := by
+  rcases fifo_repaired_faults_only_as_uncached cfg (Or.inr hcfg) hlg (ofB F) (fileOK_ofB hwf 0) ops ok e hr with h | h
+  · exact h
+  · have hp : ∀ op ∈ ops.map Op.uncached, Plain op := by
+      intro op hop
+      obtain ⟨op0, h1, h2⟩ := List.mem_map.1 hop
+      subst h2
+      exact plain_uncached op0 (fun f b e => hseek f b (e ▸ h1))
+    have hv' : Hts.Spec.Flat.ValidOps (Hts.Model.Bgzf.layoutOf F) ((ops.map Op.uncached).filterMap flatOp) := by
+      rw [filterMap_flatOp_uncached]; exact hv
+    have := uncached_baseline_refines_flat cfg hcfg fifoOps F hwf r0 h0 (ops.map Op.uncached) hp hv'
+    rw [h] at this
+    cases this
+
 /-- `file3` as a C02 file -/
 def file3B : Hts.Model.Bgzf.File :=
   [⟨[65, 65, 65, 65, 65, 65], 35⟩, ⟨[66, 66, 66, 66, 66, 66], 35⟩, ⟨[67, 67, 67, 67], 36⟩]
